@@ -25,7 +25,8 @@ SemNot(X) == MustValue(<<MapT(X, "bool", LAMBDA v : ~v)>>)
 SemPRelu(X, S) ==
    IF X.dt # S.dt THEN MustError
    ELSE IF ~UCompat(X.shape, S.shape) THEN MustError
-   ELSE Weaken(X.dt \notin {"f32", "f64", "i32", "i64"},
+   \* (the operator's gate accepts float32/64, int32/64 and uint32/64: "all accepted element types" are computed)
+   ELSE Weaken(X.dt \notin {"f32", "f64", "i32", "i64", "u32", "u64"},
                MustValue(<<Mk(X.dt, X.shape, LAMBDA idx : PReluElem(X.dt, At(X, idx), At(S, BIndex(idx, S.shape))))>>))
 
 \* ------------------------------------------------------- table-based operators
